@@ -7,7 +7,12 @@ from fractions import Fraction
 from ..core import LEAN, REPO, Prop, Violation, import_repo, show_bool, show_rat, write_if_changed
 from ..extract import e_cascade, py2lean_cascade
 
-CP = ["none", "pass", "reject", "raise", "odd", "raise0", "lt50"]
+CP = ["none", "pass", "reject", "raise", "odd", "raise0", "lt50", "fpass", "freject", "fraise", "truthy", "falsy", "boolraise"]
+# fpass / freject / fraise: the checkpoint is a callable OBJECT whose own truth value is false (`__bool__` False or
+# `__len__` 0, e.g. an empty rule list with `__call__`): it IS the stage's checkpoint and answers pass / reject / raises;
+# truthy / falsy: the checkpoint answers with non-bool values ("x", [0], 1.5 / "", [], None, 0.0);
+# boolraise: it answers with an object whose truth value cannot be taken (`__bool__` raises) - a gate error
+CP_AS = {"fpass": "pass", "freject": "reject", "fraise": "raise", "truthy": "pass", "falsy": "reject", "boolraise": "raise"}
 PR = ["ok", "raise", "raise0"]
 EH = ["none", "ok", "raise", "raise0"]
 AMPS = ["1", "2", "4", "1/2", "8", "1/4", "0", "-2"]
@@ -213,6 +218,32 @@ class C19(Prop):
         class Boom(Exception):
             pass
 
+        class NoTruth:
+            def __bool__(self):
+                raise fault("raise0" if made[0] % 2 else "raise", "bool")
+
+        class FalsyGateBool:
+            """a checkpoint object that is callable and whose own truth value is false"""
+            def __init__(self, f):
+                self.f = f
+
+            def __call__(self, x):
+                return self.f(x)
+
+            def __bool__(self):
+                return False
+
+        class FalsyGateLen:
+            """... because it is an empty container (a rule list with `__call__`)"""
+            def __init__(self, f):
+                self.f = f
+
+            def __call__(self, x):
+                return self.f(x)
+
+            def __len__(self):
+                return 0
+
         def fault(kind, what):
             # "raise0": exceptions whose str() is empty, of several classes
             if kind == "raise0":
@@ -228,13 +259,22 @@ class C19(Prop):
                 return next(k for k, x in enumerate(cur) if x is d)
 
             def cpf(x):
-                if cp in ("raise", "raise0"):
+                if cp in ("raise", "raise0", "fraise"):
                     log.append(f"cp{pos()}:{sig(x)}:x")
                     raise fault(cp, "cp")
-                r = True if cp == "pass" else False if cp == "reject" else \
+                if cp == "boolraise":
+                    log.append(f"cp{pos()}:{sig(x)}:x")
+                    return NoTruth()
+                r = True if cp in ("pass", "fpass", "truthy") else False if cp in ("reject", "freject", "falsy") else \
                     (isinstance(x, int) and x % 2 == 1) if cp == "odd" else (isinstance(x, int) and x < 50)
                 log.append(f"cp{pos()}:{sig(x)}:{'t' if r else 'f'}")
+                if cp == "truthy":
+                    return ["x", [0], 1.5, (None,)][i0 % 4]
+                if cp == "falsy":
+                    return ["", [], None, 0.0][i0 % 4]
                 return r
+            if cp in ("fpass", "freject", "fraise"):
+                cpf = (FalsyGateLen if i0 % 2 else FalsyGateBool)(cpf)
 
             def pf(x):
                 log.append(f"p{pos()}:{sig(x)}")
@@ -497,6 +537,7 @@ class C19(Prop):
 
                   def gate_value(cp, sig):
                       # what the checkpoint of kind cp answers for signal sig (None = raises)
+                      cp = CP_AS.get(cp, cp)       # a checkpoint is a checkpoint whatever its own truth value / answer type
                       if cp in ("raise", "raise0"):
                           return None
                       v = int(sig) if sig.lstrip("-").isdigit() else None
@@ -545,7 +586,7 @@ class C19(Prop):
                               x = (x * 10 + b[5] + 1) if b[1] in ("ok", "nest") else 7000 + b[5]
                       if fin != f"some:{x}":
                           out.append(Violation("final_output_is_composition", f"some:{x}", fin, idx))
-                      if any(b[0] in ("reject", "raise", "raise0") for b in beh):
+                      if any(CP_AS.get(b[0], b[0]) in ("reject", "raise", "raise0") for b in beh):
                           out.append(Violation("success_with_failing_gate", "no success", o, idx))
                   elif fin != "none":
                       out.append(Violation("no_output_unless_success", "none", fin, idx))
